@@ -617,6 +617,7 @@ PROTOTYPES = {
         {"t": "ListBox", "items": [{"t": "Text", "text": "s0", "align": "left", "wrap": "space"}, {"t": "Button", "label": "s1"}, {"t": "Text", "text": "s2", "align": "left", "wrap": "space"}], "walker": "simple", "focus": 1},
         {"t": "ListBox", "items": [{"t": "Text", "text": f"r{i}", "align": "left", "wrap": "space"} if i % 3 else {"t": "Button", "label": f"r{i}"} for i in range(12)], "walker": "focus", "focus": 6},
         {"t": "Frame", "body": {"t": "Filler", "w": {"t": "Edit", "caption": "", "text": "body", "multiline": False, "align": "left", "wrap": "space", "pos": 0}, "valign": "top"}, "header": {"t": "Text", "text": "head", "align": "left", "wrap": "space"}, "footer": {"t": "Edit", "caption": "", "text": "foot", "multiline": False, "align": "left", "wrap": "space", "pos": 0}, "focus": "body"},
+        {"t": "Frame", "body": {"t": "Filler", "w": {"t": "Edit", "caption": "", "text": "body", "multiline": False, "align": "left", "wrap": "space", "pos": 2}, "valign": "top"}, "header": {"t": "Button", "label": "hd"}, "footer": {"t": "SelectableIcon", "text": "footer icon", "cpos": 3}, "focus": "body"},
         {"t": "Overlay", "top": {"t": "Text", "text": "over lay", "align": "left", "wrap": "space"}, "bottom": {"t": "SolidFill", "ch": "."}, "align": "center", "width": 6, "valign": "middle", "height": "pack"},
         {"t": "Scrollable", "w": {"t": "Text", "text": "s0\ns1\ns2\ns3\ns4\ns5\ns6\ns7", "align": "left", "wrap": "space"}, "pos": 3},
         {"t": "Pile", "items": [["weight", 1, {"t": "SolidFill", "ch": "#"}], ["pack", None, {"t": "Edit", "caption": "", "text": "pe", "multiline": False, "align": "left", "wrap": "space", "pos": 0}], ["weight", 2, {"t": "Filler", "w": {"t": "Text", "text": "pf", "align": "left", "wrap": "space"}, "valign": "top"}]], "focus": 1},
@@ -663,6 +664,17 @@ def directed_cases(mode, quick=False, seed=0):
                         continue
                 ws = T.walk(root)
                 seen = set()
+                # root-level input: a button-1 press at a 3x3 grid of cells and every navigation key, then look
+                warm0 = [["render", 0, 1], ["render", 0, 0], ["render", 1, 1]]
+                s0 = sizes[0]
+                rows0 = s0[1] if len(s0) > 1 else 4
+                inputs = [["mouse", 0, c, r, 1] for c in (0, s0[0] // 2, s0[0] - 2) for r in (0, rows0 // 2, rows0 - 1)]
+                inputs += [["key", 0, k] for k in ("up", "down", "left", "right", "page down", "home", "end", "tab", " ", "x")]
+                if quick:
+                    inputs = inputs[(seed + len(cases)) % 3 :: 3]
+                for j, inp in enumerate(inputs):
+                    look = [[*o, "B"] for o in warm0] if j % 2 else warm0
+                    cases.append({"mode": mode, "kind": rkind, "recipe": recipe, "sizes": sizes, "ops": [*warm0, inp, *look]})
                 for idx, wd in enumerate(ws):
                     for trial in range(60):
                         m = T.propose(random.Random(f"{trial}:{idx}"), wd)
@@ -750,13 +762,16 @@ def run(ctx):
     try:
         # ---- directed core: every mutator kind of every prototype widget, alone and under standard parents
         set_mode("utf8")
-        dcases = regression_cases("utf8") + directed_cases("utf8", quick=ctx.quick, seed=ctx.seed)
+        dcases = directed_cases("utf8", quick=ctx.quick, seed=ctx.seed)
+        # shuffled (by seed) so that a run that cannot finish them all still samples every kind evenly
+        random.Random(f"C06-directed:{ctx.seed}").shuffle(dcases)
+        dcases = regression_cases("utf8") + dcases
         ctx.extra["directed_cases_total"] = len(dcases)
         done_all = True
         for i, desc in enumerate(dcases):
             if not ctx.mine(i):
                 continue
-            if not ctx.more(0.45):
+            if not ctx.more(0.55):
                 done_all = False
                 break
             h = execute(ctx, desc, count=True)
